@@ -124,3 +124,43 @@ Proof. intros K. unfold session_items. rewrite run_app.
   destruct (run_session kus (minit junk cstate c0) c0) as [s1 [E1 I1]]; [repeat split | exact K |].
   rewrite E1, (run_idle trailing s1 _ I1), app_nil_r. exists s1. split; [reflexivity | exact I1]. Qed.
 End Run.
+
+(** ** Reconfiguration: source()/dest() between sessions.  Every group of key-ups carries the LSF (frame and LICH) of the pair
+    configured for it, whatever the earlier groups left in the state (LICH segments, counters, audio buffer). *)
+Section Reconfig.
+Variable junk : nat -> N.
+Variable cstate : Type.
+Variable codec2_encode : cstate -> list Z -> cstate * list N.
+Hypothesis codec_ok : forall c a, length (snd (codec2_encode c a)) = 8%nat /\ all_bytes (snd (codec2_encode c a)).
+
+Definition group : Type := (list N * list N * list keyup * list event)%type.
+Definition group_ok (g : group) : Prop :=
+  let '(dst, src, kus, _) := g in
+  (all_bytes dst /\ (length dst <= 9)%nat) /\ (all_bytes src /\ (1 <= length src <= 9)%nat) /\ Forall keyup_ok kus.
+Definition seg_of (g : group) : list N * list N * list item :=
+  let '(dst, src, kus, trailing) := g in (encode_callsign dst, encode_callsign src, session_items kus trailing).
+Definition grp_of (g : group) : list N * list N * list keyup := let '(dst, src, kus, _) := g in (dst, src, kus).
+
+Lemma run_configured (groups : list group) : forall s c, idle_inv s c -> Forall group_ok groups ->
+  exists s', run_segments junk cstate codec2_encode s (map seg_of groups)
+             = Some (s', snd (configured_stream cstate codec2_encode c (map grp_of groups)))
+             /\ idle_inv s' (fst (configured_stream cstate codec2_encode c (map grp_of groups))).
+Proof. induction groups as [|g groups IH]; intros s c I K.
+- exists s. split; [reflexivity | exact I].
+- inversion K as [|g' gs' Hg Hgs]; subst. destruct g as [[[dst src] kus] trailing]. destruct Hg as [Hd [Hs Hk]].
+  cbn [map seg_of grp_of run_segments configured_stream]. unfold session_items.
+  rewrite (run_app junk cstate codec2_encode dst src).
+  destruct (run_session junk cstate codec2_encode codec_ok dst src Hd Hs kus s c I Hk) as [s1 [E1 I1]]. rewrite E1.
+  rewrite (run_idle junk cstate codec2_encode dst src trailing s1 _ I1), app_nil_r.
+  destruct (session_stream cstate codec2_encode dst src c kus) as [c1 o1]. cbn [fst snd] in *.
+  destruct (IH s1 c1 I1 Hgs) as [s2 [E2 I2]]. rewrite E2.
+  destruct (configured_stream cstate codec2_encode c1 (map grp_of groups)) as [c2 o2]. cbn [fst snd] in *.
+  exists s2. split; [reflexivity | exact I2]. Qed.
+
+Theorem configured_sessions_run (groups : list group) (c0 : cstate) : Forall group_ok groups ->
+  exists s', run_segments junk cstate codec2_encode (minit junk cstate c0) (map seg_of groups)
+             = Some (s', snd (configured_stream cstate codec2_encode c0 (map grp_of groups)))
+             /\ st_mode s' = IDLE /\ st_codec s' = fst (configured_stream cstate codec2_encode c0 (map grp_of groups)).
+Proof. intros K. destruct (run_configured groups (minit junk cstate c0) c0) as [s' [E [M [_ C]]]]; [repeat split | exact K|].
+  exists s'. split; [exact E | split; [exact M | exact C]]. Qed.
+End Reconfig.
